@@ -247,6 +247,15 @@ func countPlan(pl *plan, o *simkit.Outcome) {
 	if pl.exitCode != 0 {
 		o.Faults["exit_nonzero"]++
 	}
+	if pl.killSig != 0 {
+		o.Faults["exit_by_signal"]++
+	}
+	if pl.dataEOF && pl.inTotal > 0 {
+		o.Probes["input_data_with_eof"]++
+	}
+	if pl.zeroRds > 0 {
+		o.Probes["input_zero_reads"]++
+	}
 	if pl.largeLastWrite() {
 		o.Faults["large_last_write"]++
 	}
@@ -339,6 +348,12 @@ func judge(pl *plan, ob *observed) (vs []simkit.Found, facts []string, harnessEr
 	}
 	// --- exit status ---
 	switch {
+	case res.Sig != 0 && ob.goErr == nil:
+		add("exit-status-reported", "death by signal reported as success",
+			fmt.Sprintf("the command was killed by signal %d but Go returned nil", res.Sig))
+		fact("go: nil although killed by a signal")
+	case res.Sig != 0:
+		fact("go: error, killed by a signal")
 	case res.Code != 0 && ob.goErr == nil:
 		add("exit-status-reported", "nonzero exit reported as success",
 			fmt.Sprintf("the command exited with status %d but Go returned nil", res.Code))
